@@ -69,3 +69,20 @@ End Alloc.
 Print Assumptions C05_gauss_alloc_old_modes_unchanged.
 Print Assumptions C05_gauss_alloc_new_mode_vacuum_uncorrelated.
 Print Assumptions C05_gauss_delete_spectators.
+
+(* GaussianModes.apply_u (PassiveChannel on the Gaussian backend; model regenerated from the source each run, Gen/GaussMat.v):
+   if U is the identity on every non-target row (what GaussianBackend.passive builds: identity(nlen) with T written into the
+   target block), no entry of N, M, mean among non-target modes changes — any register size, any U, any state. *)
+From SFV Require Import Base.MatOps Gen.GaussMat C07.GaussPhysical C07.GaussPassive.
+Section Passive.
+Variable K : Type.
+Variables (k0 k1 : K) (kadd kmul ksub : K -> K -> K) (kopp : K -> K).
+Hypothesis Kring : ring_theory k0 k1 kadd kmul ksub kopp (@eq K).
+Notation NKp := (GaussPhysical.NK K k0 k1 kadd kmul ksub kopp).
+Theorem C05_gauss_spectators_apply_u : forall (tg : nat -> bool) (U : mat (K:=K)) (s : st K),
+  (forall i k, i < nlen s -> k < nlen s -> tg i = false -> U i k = (if Nat.eqb i k then C1 NKp else C0 NKp)) ->
+  forall i j, i < nlen s -> j < nlen s -> tg i = false -> tg j = false ->
+    nmat (apply_u NKp U s) i j = nmat s i j /\ mmat (apply_u NKp U s) i j = mmat s i j /\ mean (apply_u NKp U s) i = mean s i.
+Proof. exact (apply_u_spectators K k0 k1 kadd kmul ksub kopp Kring). Qed.
+End Passive.
+Print Assumptions C05_gauss_spectators_apply_u.
